@@ -128,6 +128,7 @@ fn parse_one(sut: &mut Sut, wire: &[u8], what: &str) -> Result<NetflowPacket, Di
 
 pub fn run_c04(w: &mut W) {
     let mut st = Stats::default();
+    super::idspace::run(w, "C04", 0, &[0, 1]);
     for idx in w.indices() {
         let mut rng = w.begin_case(idx, "v9-stream");
         let cfg = stream_cfg(&mut rng);
@@ -295,6 +296,7 @@ fn c05_finding_families(w: &mut W, rng: &mut Rng, which: u64) {
 
 pub fn run_c05(w: &mut W) {
     let mut st = Stats::default();
+    super::idspace::run(w, "C05", 0, &[2, 3]);
     for idx in w.indices() {
         let mut rng = w.begin_case(idx, "ipfix-stream");
         if idx % 64 == 63 {
